@@ -1,6 +1,8 @@
 //! pvh — correspondence harness: runs the real penne implementation on case
 //! files and prints one canonical line per case.
+mod exec;
 mod front;
+mod ir;
 mod shape;
 mod util;
 
@@ -16,6 +18,12 @@ fn main()
 	match args[1].as_str()
 	{
 		"front" => front::stream(&args[2]),
+		"exec" => exec::stream(&args[2], true, false, false),
+		"exec-tools" => exec::stream(&args[2], true, true, false),
+		"tools" => exec::stream(&args[2], false, true, false),
+		"tools-wasm" => exec::stream(&args[2], false, true, true),
+		"ir" => ir::stream(&args[2], false),
+		"ir-wasm" => ir::stream(&args[2], true),
 		other =>
 		{
 			eprintln!("unknown stream {}", other);
